@@ -66,7 +66,9 @@ def run(ctx):
     ctx.rule = ("(a) op sequences on the real TopologicalSorter (exhaustive ≤3-4 tasks + random, with mid-build re-creation) and "
                 "(b) generated projects (all declaration styles, after as function/list/expression, upstream with and without products) built "
                 "through pytask.build under several PYTHONHASHSEEDs, body start/end log replayed in the Lean engine; non-trivial = ≥2 bodies ran and "
-                "the spec has ≥1 dependency edge; distinct by canonical (spec, steps)")
+                "the spec has ≥1 dependency edge; (c) projects whose graph grows during the build (task generators, directory-pattern nodes, "
+                "after-expressions matching generated tasks; generator/oracle of the C18 check restricted to the order / once rules); "
+                "distinct by canonical (spec, steps)")
     sorter_api.campaign(ctx, KINDS_API, quick_random=200, thorough_random=4000)
     hs = histories(ctx)
 
@@ -75,12 +77,53 @@ def run(ctx):
         return bool(b) and sum(1 for e in b[0]["obs"]["log"] if e[0] == "S") >= 2 and len(engine.spec_task_edges(h["spec"])) >= 1
 
     engine.run_campaign(ctx, hs, oracle, nontrivial=nontrivial)
+    provisional_stream(ctx)
     # the F1 witness must still be detected (self-test of the oracle) unless it has been repaired
     ctx.extra["f1_witness_detected"] = "F1" in {v["finding"] for v in ctx.violations}
 
 
+PROV_KINDS = {"order", "after", "once", "generated", "build"}
+
+
+def provisional_stream(ctx, hs=None):
+    """(c) graphs that grow during the build: task generators, directory-pattern nodes, after-expressions matching generated
+    tasks — the scheduler is re-created mid-build (from_dag_and_sorter). Project generator, runner and oracle are those of the
+    C18 check (harness/props/c18.py, impl/prov_api.py); only the order / at-most-once rules are judged here, and every build is
+    replayed in the Lean model M7 whose scheduler is M2 (C01_sorter_safe / C01_sorter_once cover re-creation)."""
+    from props import c18
+    from impl import prov_api as pa
+    if hs is None:
+        hs = c18.corpus()
+        for _ in range(ctx.scale(24, 250)):
+            spec = pa.gen_spec(ctx.rng)
+            hs.append({"tag": "rand", "spec": spec, "steps": pa.gen_steps(ctx.rng, spec)[:3]})
+    recs = c18.run_histories(ctx, hs, nseeds=8)
+    drv = ctx.driver() if ctx.use_model else None
+    for h, r in zip(hs, recs):
+        builds = [x for x in r if x["step"][0] == "build"]
+        nt = any(sum(1 for e in b["obs"].get("log", []) if e[0] == "S") >= 2 for b in builds)
+        ctx.case(["prov", h["spec"], h["steps"]], nt, None)
+        ctx.dist["prov_histories"] += 1
+        for kind, msg, finding in c18.oracle(h, r):
+            if kind in PROV_KINDS and not finding:
+                ctx.violation(f"{kind}: {msg}", {"history": h, "layer": "prov-e2e"}, finding=None)
+        if drv is not None and not h.get("nomodel"):
+            dis = pa.replay_in_model(drv, h, r)
+            ctx.traces_validated += 1
+            for (i, what, iv, mv) in dis[:1]:
+                ctx.disagreement(f"provisional model, step {i}: {what}: implementation {iv!r}, model {mv!r}",
+                                 {"history": h, "step": i, "what": what, "impl": iv, "model": mv, "layer": "prov-e2e"})
+
+
 def replay(ctx, obj):
     inp = obj["input"]
+    if inp.get("layer") == "prov-e2e":
+        provisional_stream(ctx, [inp["history"]] * 4)
+        if ctx.violations:
+            return False, ctx.violations[0]["what"]
+        if ctx.disagreements:
+            return False, ctx.disagreements[0]["what"]
+        return True, "order and at-most-once hold on the stored case"
     if inp.get("layer") == "sorter-api":
         traces = sorter_api.run_workers([inp["case"]], [obj.get("seed", 0) + 1])
         sorter_api.check_traces(ctx, [inp["case"]], traces, KINDS_API)
